@@ -1375,6 +1375,14 @@ impl Function {
                 .extend(Cow::Owned(self.get_qualified_name()));
         }
 
+        #[cfg(mscript_verif)]
+        let mut verif_activation = crate::verif::Activation::enter(
+            self.get_qualified_name(),
+            current_frame.borrow().size(),
+            args.len(),
+            callback_state.is_some(),
+        );
+
         // Each function needs its own context.
         let mut context = Ctx::new(self, current_frame.clone(), args, callback_state);
 
@@ -1387,6 +1395,15 @@ impl Function {
 
         while instruction_ptr < self.instructions.len() {
             let instruction = &self.instructions[instruction_ptr];
+
+            #[cfg(mscript_verif)]
+            crate::verif::instruction(
+                &verif_activation.name,
+                instruction_ptr,
+                instruction.id,
+                current_frame.borrow().size(),
+                context.stack_size(),
+            );
 
             // queries the function pointer associated with the instruction,
             // and gives it ownership of the instruction.
@@ -1428,6 +1445,11 @@ impl Function {
             match ret {
                 InstructionExitState::ReturnValue(ret) => {
                     current_frame.borrow_mut().pop_until_function();
+                    #[cfg(mscript_verif)]
+                    {
+                        verif_activation.ok = true;
+                        crate::verif::leave_depth(current_frame.borrow().size());
+                    }
                     return Ok(ret.clone());
                 }
                 InstructionExitState::JumpRequest(jump_request) => {
@@ -1502,7 +1524,18 @@ impl Function {
 
         current_frame.borrow_mut().pop();
 
+        #[cfg(mscript_verif)]
+        {
+            verif_activation.ok = true;
+            crate::verif::leave_depth(current_frame.borrow().size());
+        }
+
         Ok(ReturnValue::NoValue)
+    }
+
+    #[cfg(mscript_verif)]
+    pub(crate) fn instructions(&self) -> &[Instruction] {
+        &self.instructions
     }
 
     /// Get a function's name.
